@@ -4,7 +4,6 @@ import (
 	"bytes"
 	"fmt"
 	"os"
-	"path/filepath"
 
 	"github.com/tonkeeper/tongo/config"
 
@@ -30,7 +29,7 @@ func canonFile(servers []Server) []byte {
 }
 
 // Cfg runs config.ParseConfig (via = "reader") or config.ParseConfigFile (via = "file") on the text and records the result.
-func Cfg(w *ev.Writer, via, variant string, servers []Server, text []byte, dir string, extra ev.M) {
+func Cfg(w *ev.Writer, via, variant string, servers []Server, text []byte, scratch string, extra ev.M) {
 	w.Emit(ev.M{"k": "Begin", "what": "cfg"})
 	sv := [][]string{}
 	for _, s := range servers {
@@ -47,7 +46,7 @@ func Cfg(w *ev.Writer, via, variant string, servers []Server, text []byte, dir s
 		var res *config.GlobalConfigurationFile
 		var err error
 		if via == "file" {
-			p := filepath.Join(dir, "x06_config.json")
+			p := scratch + ".cfg.json" // one scratch file per output file: shards run side by side
 			if err := os.WriteFile(p, text, 0o644); err != nil {
 				panic(err)
 			}
